@@ -24,6 +24,7 @@ type c13params struct {
 
 func init() {
 	report.Register("C13", report.Check{Level: "model_checking", QuickBudget: 240 * time.Second, ThoroughBudget: 25 * time.Minute, Run: runC13})
+	explore.Register("C13.killtimeout", func(p string) explore.Harness { return killTimeout })
 	explore.Register("C13.takeover", func(p string) explore.Harness {
 		var pr c13params
 		json.Unmarshal([]byte(p), &pr)
@@ -295,6 +296,68 @@ func takeover(x *explore.X, pr c13params) {
 	x.Outcome(fmt.Sprintf("survivor=%s", strings.Split(surv.Name, "#")[1]))
 }
 
+// killTimeout: an old connection that does not go away when it is closed (a write stuck below the transport). Every
+// take-over attempt has to end in the kill timeout and be refused; no newcomer may be accepted while the old connection
+// has not been terminated, however many attempts were refused before.
+func killTimeout(x *explore.X) {
+	clean := vrt.Choose(2, "incumbent-clean") == 1
+	w := env.NewWorld(x, func(m *broker.MemoryBackend) { m.ClientInflightMessages = 1 })
+	helper := w.NewClient("h")
+	helper.Connect(true, nil)
+	inc := w.NewClient("x")
+	inc.Connect(clean, &packet.Message{Topic: "w", Payload: []byte("will-inc"), QOS: 1})
+	inc.Send(env.Subscribe(1, packet.Subscription{Topic: "t0", QOS: 0}))
+	w.Run(helper, inc)
+	inc.BEnd.Hold, inc.BEnd.StickyHold = true, true
+	helper.Pub("t0", "z0", 0, false)
+	w.Run(helper, inc)
+	terminated := func() bool {
+		ts := w.Rec.Calls("Terminate", inc.Name)
+		return len(ts) > 0 && ts[0].Ret != 0
+	}
+	attempts := 2 + vrt.Choose(2, "attempts")
+	var news []*env.Client
+	for i := 0; i < attempts; i++ {
+		n := w.NewClient("x")
+		news = append(news, n)
+		n.Connect(vrt.Choose(2, "newcomer-clean") == 1, nil)
+		w.Run(helper, inc, n)
+		// let the kill timeout (and nothing else that is pending) pass
+		for k := 0; k < 6 && len(w.Rec.InProgress()) > 0; k++ {
+			if !vrt.FireNext() {
+				break
+			}
+			w.Run(helper, inc, n)
+		}
+		if n.Connack != nil && n.Connack.ReturnCode == packet.ConnectionAccepted && !terminated() {
+			x.Failf("old-terminated-before-connack", fmt.Sprintf("connack-while-old-alive:kill-timeout:attempt-%d", i+1), "take-over attempt %d (after %d refused by the kill timeout) received an accepting CONNACK although the old connection %s, whose write is stuck, has not been terminated: two connections with client id x are live", i+1, i, inc.Name)
+			return
+		}
+		for _, e := range w.Rec.InProgress() {
+			if e.Hook == "Setup" {
+				x.Failf("nothing-blocked", "setup-in-progress:kill-timeout", "Setup for %s is still in progress after the kill timeout passed; blocked: %v", e.Conn, vrt.Blocked())
+				return
+			}
+		}
+	}
+	// the stuck write finally fails: the old connection ends, its will is published once, and the id is free again
+	inc.BEnd.Release()
+	w.Run(append([]*env.Client{helper, inc}, news...)...)
+	if !terminated() {
+		x.Failf("one-live-connection", "old-never-terminated:kill-timeout", "the old connection's write was released but the connection was never terminated; blocked: %v", vrt.Blocked())
+		return
+	}
+	last := w.NewClient("x")
+	last.Connect(false, nil)
+	w.Run(helper, inc, last)
+	if last.Connack == nil || last.Connack.ReturnCode != packet.ConnectionAccepted {
+		x.Failf("one-live-connection", "id-not-free-after-kill-timeouts", "after the old connection ended a new connection with client id x was not accepted")
+	}
+	lifecycle(x, w, "kill-timeout")
+	x.Note("takeover")
+	x.Outcome(fmt.Sprintf("attempts=%d", attempts))
+}
+
 func runC13(r *report.Report) {
 	r.Assume("2-3 newcomers (quantifier: 2-8) present the incumbent's client id concurrently, as autonomous threads; clean/unclean mixes are all enumerated; a helper publishes towards the id at the same time",
 		"incumbent states: idle; outbound QoS 1 handshake open with one more message queued behind a window of 1 (= parked on an exhausted window); dying by EOF at the same moment; sending DISCONNECT at the same moment; blocked in a send (the peer does not read); mid-handshake (Setup done, CONNACK write blocked); clean session with a full queue (a concurrent publish waits on it); two outbound handshakes open behind a window of 3",
@@ -313,4 +376,7 @@ func runC13(r *report.Report) {
 	r.AddExploration("3-newcomers", "schedule", fmt.Sprintf("3 concurrent CONNECTs x %d incumbent states x 8 clean mixes, delay bound %d", len(c13states), b3), st, "as above", "takeover")
 	st = explore.Explore(explore.Config{Harness: "C13.takeover", Params: mk(c13params{Newcomers: 2, States: c13states, Real: true}), Bound: b3, Workers: report.Workers(), Deadline: r.Deadline()})
 	r.AddExploration("2-newcomers-over-baseconn", "schedule", fmt.Sprintf("2 concurrent CONNECTs x %d incumbent states x 4 clean mixes, every connection a transport.BaseConn over a byte-stream view of the pipe, delay bound %d", len(c13states), b3), st, "as above; the stream decoder, buffered writer, flush timer and the send / receive mutexes of BaseConn take part in every schedule", "takeover")
+	st = explore.Explore(explore.Config{Harness: "C13.killtimeout", Bound: 1, Workers: report.Workers(), Deadline: r.Deadline()})
+	r.AddExploration("kill-timeout", "history", "an old connection whose write stays stuck even after Close (clean / unclean), 2-3 successive take-over attempts (clean / unclean) each ended by the kill timeout (fired as an event), then the write is released; one scheduling deviation placed everywhere", st,
+		"no attempt is accepted while the old connection has not been terminated; Setup returns after the timeout; afterwards the old connection ends, lifecycle clauses hold and the id is free again", "takeover")
 }
